@@ -1,6 +1,6 @@
 """C04 check driver."""
 from pyvc.driver import Check
-from props import c04, c04_concrete
+from props import c04, c04b, c04_concrete
 
 ASSUMPTIONS = [
     "Python ints are mathematical; timedelta fields are normalized (0 <= seconds < 86400, 0 <= microseconds < 10**6, "
@@ -43,6 +43,7 @@ def main(tier, seed):
     chk = Check("C04", tier, seed)
     chk.assumptions = list(ASSUMPTIONS)
     c04.obligations(chk)
+    c04b.obligations(chk)
     # known finding: witness replay on the real code
     fails, n, d = c04_concrete.search(stop_at=None)
     known = [f for f in fails if f["kind"] == "iso-wellformed" and f["value"] == "datetime.timedelta(0)"]
